@@ -408,7 +408,7 @@ func ruleMergeOrder(c *Ctx, r *Repo, cp *packages.Package) {
 			c.Fail("R08.4", s.fn+"|missing", "config/config.go", s.fn+" not found")
 			continue
 		}
-		rs := rangeOver(fd, s.loopMarker)
+		rs := rangeOverC(cp, fd, "RECV."+s.loopMarker)
 		if rs == nil {
 			c.Fail("R08.4", s.fn+"|loop", r.Pos(fd.Pos()), "no loop over "+s.loopMarker)
 			continue
@@ -544,17 +544,18 @@ func ruleConsumers(c *Ctx, r *Repo, rule string, only map[string]bool) {
 	}
 	fn := calleeFunc(info, call)
 	sig := fn.Type().(*types.Signature)
+	fc := newFuncCanon(info, run)
 	level := func(e ast.Expr) string {
-		s := types.ExprString(e)
+		s := fc.E(e)
 		switch {
-		case strings.Contains(s, "interfacesInFile.") || strings.Contains(s, ".interfaces["):
-			return "file"
-		case strings.Contains(s, "packageConfig.") || strings.Contains(s, "pkgConfig."):
+		case strings.Contains(s, "GetPackageConfig<(config.RootConfig).GetPackageConfig>("):
 			return "package"
-		case strings.Contains(s, "r.Config."):
+		case strings.Contains(s, "rangeval(") && strings.Contains(s, "InterfaceCollection"):
+			return "file"
+		case strings.Contains(s, "RECV.Config."):
 			return "root"
 		}
-		return "other(" + s + ")"
+		return "other(" + types.ExprString(e) + ")"
 	}
 	params := map[string]string{"templateName": "template", "templateSchema": "template-schema", "requireSchemaExists": "require-template-schema-exists", "formatter": "formatter"}
 	for i := 0; i < sig.Params().Len() && i < len(call.Args); i++ {
